@@ -426,7 +426,7 @@ Definition eres := (list nat * list (list nat) * nat)%type.
 Lemma epoch_agree G d : incl (rngs_of d) G -> forall arrs k st st', agree G st st' ->
   @rel_res eres G (epoch d arrs k st) (epoch d arrs k st').
 Proof.
-  induction d as [n|d IH|perm d IH|g d IH|g B d IH|d IH]; intros HG arrs k st st' H; simpl in *.
+  induction d as [n|d IH|perm d IH|g d IH|g B d IH|d IH|g d IH]; intros HG arrs k st st' H; simpl in *.
   - auto.
   - apply IH; assumption.
   - specialize (IH HG arrs k st st' H). unfold rel_res in IH.
@@ -454,13 +454,23 @@ Proof.
       try contradiction; simpl; auto.
     destruct Hx as [<- ?]. auto.
   - apply IH; assumption.
+  - assert (Hg : In g G) by (apply HG; left; reflexivity).
+    assert (HG' : incl (rngs_of d) G) by (intros x Hx; apply HG; right; assumption).
+    pose proof (take_draw_frame G st st' g H Hg) as Ht. unfold rel_res in Ht.
+    destruct (take_draw st g) as [[dr st1]|], (take_draw st' g) as [[dr' st1']|]; try contradiction; simpl; auto.
+    destruct Ht as [<- Ha]. destruct dr; simpl; auto.
+    specialize (IH HG' arrs k st1 st1' Ha). unfold rel_res in IH.
+    destruct (epoch d arrs k st1) as [[[[o a] k1] s1]|], (epoch d arrs k st1') as [[[[o' a'] k1'] s1']|];
+      try contradiction; simpl; auto.
+    destruct IH as [E Ha2]. inversion E; subst.
+    destruct (length sigma =? length o'); simpl; auto.
 Qed.
 
 Lemma epoch_other d : forall arrs k st o a k1 s1,
   epoch d arrs k st = Some (o, a, k1, s1) ->
   forall g, ~ In g (rngs_of d) -> nth_error s1 g = nth_error st g.
 Proof.
-  induction d as [n|d IH|perm d IH|g d IH|g B d IH|d IH]; intros arrs k st o a k1 s1; simpl.
+  induction d as [n|d IH|perm d IH|g d IH|g B d IH|d IH|g d IH]; intros arrs k st o a k1 s1; simpl.
   - intros H; inversion H; subst. reflexivity.
   - apply IH.
   - destruct (epoch d arrs k st) as [[[[o0 a0] k0] s0]|] eqn:E; [|discriminate].
@@ -477,6 +487,12 @@ Proof.
     rewrite (xlocal_other B g o0 g' Hne _ _ _ _ E2).
     eapply IH; [eassumption|tauto].
   - apply IH.
+  - destruct (take_draw st g) as [[dr st1]|] eqn:E; [|discriminate].
+    destruct dr; [|discriminate].
+    destruct (epoch d arrs k st1) as [[[[o0 a0] k0] s0]|] eqn:E2; [|discriminate].
+    destruct (length sigma =? length o0); [|discriminate].
+    intros H; inversion H; subst. intros g' Hg'.
+    rewrite (IH _ _ _ _ _ _ _ E2) by tauto. eapply take_draw_other; [eassumption|]. intros ->. tauto.
 Qed.
 
 (* 4a, without the (unneeded) length hypothesis *)
@@ -606,6 +622,19 @@ Proof.
   induction m as [|m IH]; intros arrs st; [reflexivity|].
   cbn [epochs]. rewrite shuffle_once_src_constant, IH. reflexivity.
 Qed.
+
+(* each epoch of a lazily applied reshuffle over a deterministic source is exactly the drawn permutation *)
+Theorem apply_epoch_is_draw g n sigma st st1 arrs k :
+  take_draw st g = Some (DShuffle sigma, st1) -> length sigma = n ->
+  epoch (XApply g (XSrc n)) arrs k st = Some (map (fun i => nth i (seq 0 n) 0) sigma, arrs, k, st1).
+Proof.
+  intros Ht Hl. cbn [epoch]. rewrite Ht, seq_length, Hl, Nat.eqb_refl. reflexivity.
+Qed.
+
+(* the frozen copy of a lazily applied reshuffle is a one-time shuffle: constant in every epoch, consumes no draw *)
+Corollary apply_frozen_constant perm n m arrs st :
+  epochs (XShuffleOnce perm (XSrc n)) arrs st m = Some (repeat (map (fun i => nth i (seq 0 n) 0) perm) m, st).
+Proof. exact (shuffle_once_src_epochs perm n m arrs st). Qed.
 
 (* ================================================================ Part 2 *)
 Section Part2.
@@ -757,3 +786,5 @@ Print Assumptions copy_pinned_depends_on_global.
 Print Assumptions shuffle_once_constant.
 Print Assumptions shuffle_once_src_constant.
 Print Assumptions shuffle_once_src_epochs.
+Print Assumptions apply_epoch_is_draw.
+Print Assumptions apply_frozen_constant.
